@@ -380,6 +380,11 @@ fn pool() -> Vec<(&'static str, MetaType)> {
         ("Result<u8,Arc<RecA>>", meta_type::<Result<u8, std::sync::Arc<RecA>>>()),
         ("(u8,Vec<u8>)", meta_type::<(u8, Vec<u8>)>()),
         ("BitVec", meta_type::<bitvec::vec::BitVec<u8, bitvec::order::Lsb0>>()),
+        ("Range<u8>", meta_type::<std::ops::Range<u8>>()),
+        ("RangeInclusive<u8>", meta_type::<std::ops::RangeInclusive<u8>>()),
+        ("Cow<str>", meta_type::<std::borrow::Cow<'static, str>>()),
+        ("BTreeSet<u8>", meta_type::<std::collections::BTreeSet<u8>>()),
+        ("BinaryHeap<u8>", meta_type::<std::collections::BinaryHeap<u8>>()),
     ]
 }
 
@@ -609,6 +614,24 @@ fn c16(st: &mut Stats, _max: u32) -> Res {
         ("Option<Box<u8>>", meta_type::<Option<Box<u8>>>(), TypeId::of::<Option<Box<u8>>>()),
         ("[u8;2]", meta_type::<[u8; 2]>(), TypeId::of::<[u8; 2]>()),
         ("[u8;3]", meta_type::<[u8; 3]>(), TypeId::of::<[u8; 3]>()),
+        ("Cow<str>", meta_type::<std::borrow::Cow<'static, str>>(), TypeId::of::<std::borrow::Cow<'static, str>>()),
+        ("Cow<[u8]>", meta_type::<std::borrow::Cow<'static, [u8]>>(), TypeId::of::<std::borrow::Cow<'static, [u8]>>()),
+        ("Range<u8>", meta_type::<std::ops::Range<u8>>(), TypeId::of::<std::ops::Range<u8>>()),
+        ("RangeInclusive<u8>", meta_type::<std::ops::RangeInclusive<u8>>(), TypeId::of::<std::ops::RangeInclusive<u8>>()),
+        ("Result<u8,u8>", meta_type::<Result<u8, u8>>(), TypeId::of::<Result<u8, u8>>()),
+        ("BTreeSet<u8>", meta_type::<std::collections::BTreeSet<u8>>(), TypeId::of::<std::collections::BTreeSet<u8>>()),
+        ("BinaryHeap<u8>", meta_type::<std::collections::BinaryHeap<u8>>(), TypeId::of::<std::collections::BinaryHeap<u8>>()),
+        ("BTreeMap<u8,u8>", meta_type::<std::collections::BTreeMap<u8, u8>>(), TypeId::of::<std::collections::BTreeMap<u8, u8>>()),
+        ("Compact<u8>", meta_type::<scale::Compact<u8>>(), TypeId::of::<scale::Compact<u8>>()),
+        ("(u8,)", meta_type::<(u8,)>(), TypeId::of::<(u8,)>()),
+        ("(u8,u8)", meta_type::<(u8, u8)>(), TypeId::of::<(u8, u8)>()),
+        ("[u8]", meta_type::<[u8]>(), TypeId::of::<[u8]>()),
+        ("str", meta_type::<str>(), TypeId::of::<str>()),
+        ("NonZeroU8", meta_type::<core::num::NonZeroU8>(), TypeId::of::<core::num::NonZeroU8>()),
+        ("Duration", meta_type::<std::time::Duration>(), TypeId::of::<std::time::Duration>()),
+        ("i8", meta_type::<i8>(), TypeId::of::<i8>()),
+        ("char", meta_type::<char>(), TypeId::of::<char>()),
+        ("()", meta_type::<()>(), TypeId::of::<()>()),
     ];
     let h = |m: &MetaType| {
         let mut s = std::collections::hash_map::DefaultHasher::new();
@@ -768,6 +791,61 @@ fn c18(st: &mut Stats, max: u32) -> Res {
         }
     }
     ensure!(Path::from_segments(Vec::<&'static str>::new()) == Err(scale_info::PathError::MissingSegments), "empty segment list not reported as MissingSegments");
+    // Path::new / new_with_replace on arbitrary module paths: succeed exactly when every `::`-separated piece and the
+    // ident (after replacement) is an identifier - otherwise they must refuse (panic), never drop or invent a segment
+    std::panic::set_hook(Box::new(|_| {}));
+    let pieces = ["a", "::", ":", "", "r#b", "9"];
+    let mut mods: Vec<String> = vec![String::new()];
+    let mut fr = vec![String::new()];
+    for _ in 0..4 {
+        let mut nx = Vec::new();
+        for w in &fr {
+            for p in &pieces {
+                if !p.is_empty() {
+                    nx.push(format!("{}{}", w, p));
+                }
+            }
+        }
+        mods.extend(nx.iter().cloned());
+        fr = nx;
+    }
+    mods.sort();
+    mods.dedup();
+    for m in &mods {
+        for ident in ["Z", "", "r#r#q"] {
+            for table in [&[][..], &[("a", "X"), ("", "root")][..], &[("9", "nine")][..]] {
+                st.cases += 1;
+                let module: &'static str = leak(m.clone());
+                // oracle: split on "::" by hand
+                let mut parts: Vec<&str> = Vec::new();
+                let (mut start, mut i, b) = (0usize, 0usize, module.as_bytes());
+                while i < b.len() {
+                    if i + 1 < b.len() && b[i] == b':' && b[i + 1] == b':' {
+                        parts.push(&module[start..i]);
+                        start = i + 2;
+                        i += 2;
+                    } else {
+                        i += 1;
+                    }
+                }
+                parts.push(&module[start..]);
+                parts.push(ident);
+                let replaced: Vec<&str> = parts.iter().map(|s| table.iter().find(|r| r.0 == *s).map_or(*s, |r| r.1)).collect();
+                let ok = replaced.iter().all(|s| spec_ident(s.as_bytes()));
+                if !ok {
+                    st.nontrivial += 1;
+                }
+                let got = std::panic::catch_unwind(|| if table.is_empty() { Path::new(ident, module) } else { Path::new_with_replace(ident, module, table) });
+                match (got, ok) {
+                    (Ok(p), true) => ensure!(p.segments == replaced, "Path::new*({:?}, {:?}, {:?}) = {:?}, expected segments {:?}", ident, module, table, p.segments, replaced),
+                    (Err(_), false) => {}
+                    (Ok(p), false) => return Err(format!("Path::new*({:?}, {:?}, {:?}) returned {:?} although {:?} is not a list of identifiers", ident, module, table, p.segments, replaced)),
+                    (Err(_), true) => return Err(format!("Path::new*({:?}, {:?}, {:?}) refused although {:?} are all identifiers", ident, module, table, replaced)),
+                }
+            }
+        }
+    }
+    let _ = std::panic::take_hook();
     // segment lists: first offending position, order, ident, namespace, display
     let segs = ["a", "r#b", "_", "1", "", "r#", "r#r#c", "Zz9"];
     for i in 0..segs.len() {
@@ -943,7 +1021,8 @@ fn main() {
         "C12" => c12(&mut st, max),
         "C14" => c14(&mut st, max),
         "C01" => registry_histories(&mut st, max).and_then(|_| c10(&mut st, max.min(2))).and_then(|_| c12(&mut st, 3)),
-        "C02" | "C05" => registry_histories(&mut st, max),
+        "C02" => registry_histories(&mut st, max),
+        "C05" => registry_histories(&mut st, max).and_then(|_| c16(&mut st, max)),
         "C11" => registry_histories(&mut st, max).and_then(|_| order_independence(&mut st)),
         "C16" => c16(&mut st, max),
         "C17" => c17(&mut st, max),
